@@ -1,15 +1,24 @@
 -------------------------------- MODULE Links --------------------------------
 (* Applying links to a molecule (vermouth.processors.do_links).
-   Molecule  M == [nodes : Seq([id, resid, attrs : Seq(<<key, value>>)]), edges : Seq(<<a, b>>), meta : Seq(<<key, value>>),
-                   pos : Seq(<<id, x, y, z>>) (integer lattice, pm), inters : Seq([type, atoms, params, ver])]
-   Link      L == [nodes : Seq([key, order, preds]), edges : Seq(<<k1, k2>>), nonedges : Seq([from, order, preds]),
-                   patterns : Seq(Seq([key, preds])), molmeta : preds, inters : Seq([type, atoms, params, ver]),
-                   removes : Seq([type, atoms, params]), replaces : Seq([key, attr, value]), deletes : Seq(key)]
-   preds     == Seq([key, kind : "eq" | "in" | "notdef", vals : Seq(value)])
-   order     == [k : "num" | "gt" | "lt" | "star", v : Int]       ("gt"/"lt"/"star": v = number of characters)
+   Molecule  M == [nodes : Seq([id, resid, attrs : Seq(<<key, value>>), mods : Seq(Seq(name))]), edges : Seq(<<a, b>>),
+                   meta : Seq(<<key, value>>), pos : Seq(<<id, x, y, z>>) (integer lattice units),
+                   inters : Seq([type, atoms, params, ver, meta : Seq(<<key, value>>)])]
+             mods = the names of the Modification objects an atom carries; a name is a tuple of strings, e.g. <<"C-ter">>
+   Link      L == [nodes : Seq([key, order, preds, mods]), edges : Seq(<<k1, k2>>), nonedges : Seq([from, order, preds, mods]),
+                   patterns : Seq(Seq([key, preds, mods])), molmeta : preds,
+                   inters : Seq([type, atoms, params, ver, meta]),
+                   removes : Seq([type, atoms, params, atom_attrs : Seq(preds), meta : preds]),
+                   replaces : Seq([key, attr, value]), deletes : Seq(key), features : Seq(name)]
+             features are declarations only (ForceField.has_feature); they condition nothing.
+   preds     == Seq([key, kind : "eq" | "in" | "notdef" | "null", vals : Seq(value)])          (a null attribute value is "#None")
+   mods (of a template) == [k : "absent" | "empty" | "list" | "str" | "choice", vals : Seq(name)]
+   order     == [k : "num" | "gt" | "lt" | "star" | "none", v : Int]       ("gt"/"lt"/"star": v = number of characters,
+                                                                             "none": the atom carries no order)
+   link interaction parameters: <<"p", text>> | <<"dist", a, b>> | <<"angle", a, b, c>> | <<"dih", a, b, c, d>> | <<"dihp", a, b, c, d>>
    Part 1: the residue-order relation, once as the implementation branches (MatchOrderOp), once as the documented
            matrix (MatchOrderDoc).
-   Part 2: Fits(L, M, f) - the conjunction of the statement - and the sequential application of placements.     *)
+   Part 2: Fits(L, M) - the conjunction of the statement - and the sequential application of placements.
+   Part 3: geometry-derived parameters as exact integer invariants of the matched atoms' lattice positions.      *)
 EXTENDS Integers, Sequences, FiniteSets, TLC
 
 Sgn(x) == IF x > 0 THEN 1 ELSE IF x < 0 THEN -1 ELSE 0
@@ -55,25 +64,49 @@ LNode(L, k) == L.nodes[CHOOSE i \in DOMAIN L.nodes : L.nodes[i].key = k]
 LAdj(L, a, b) == \E i \in DOMAIN L.edges : (L.edges[i][1] = a /\ L.edges[i][2] = b) \/ (L.edges[i][1] = b /\ L.edges[i][2] = a)
 RangeOf(f) == {f[x] : x \in DOMAIN f}
 SeqSet(s) == {s[i] : i \in DOMAIN s}
+SymPairs(es) == {<<es[i][1], es[i][2]>> : i \in DOMAIN es} \cup {<<es[i][2], es[i][1]>> : i \in DOMAIN es}
 
+NullVal == "#None"
 PredHolds(attrs, p) ==
   CASE p.kind = "eq"     -> Has(attrs, p.key) /\ Val(attrs, p.key) = p.vals[1]
     [] p.kind = "in"     -> Has(attrs, p.key) /\ Val(attrs, p.key) \in SeqSet(p.vals)
     [] p.kind = "notdef" -> ~Has(attrs, p.key) \/ Val(attrs, p.key) # p.vals[1]
+    [] p.kind = "null"   -> ~Has(attrs, p.key) \/ Val(attrs, p.key) = NullVal          \* the template asks for null: absent or null
 AttrsMatch(attrs, preds) == \A i \in DOMAIN preds : PredHolds(attrs, preds[i])
 
-NodeFits(L, M, f, k, n) ==
-  /\ n \notin RangeOf(f)
-  /\ AttrsMatch(NodeOf(M, n).attrs, LNode(L, k).preds)
-  /\ \A p \in DOMAIN f : LAdj(L, p, k) = MAdj(M, f[p], n)            \* required bonds AND absent bonds (induced)
+(* the `modifications` condition of a template atom (link atom, non-edge partner, pattern atom) against the modifications an
+   atom of the molecule carries.  The names of the atom's modifications are flattened into one list:
+     absent  - the template says nothing: always satisfied
+     empty   - null / empty list: satisfied exactly by atoms without modifications
+     list    - the atom's modification names are exactly the listed ones (as a bag)
+     str / choice - the atom has modifications and every one of them is the given name / one of the given names *)
+RECURSIVE FlatMods(_)
+FlatMods(ms) == IF ms = <<>> THEN <<>> ELSE Head(ms) \o FlatMods(Tail(ms))
+BagOf(s) == [x \in SeqSet(s) |-> Cardinality({i \in DOMAIN s : s[i] = x})]
+ModsMatch(nodeMods, c) ==
+  LET mods == FlatMods(nodeMods) IN
+  CASE c.k = "absent" -> TRUE
+    [] c.k = "empty"  -> mods = <<>>
+    [] c.k = "list"   -> mods # <<>> /\ BagOf(mods) = BagOf(c.vals)
+    [] c.k = "str"    -> mods # <<>> /\ \A i \in DOMAIN mods : mods[i] = c.vals[1]
+    [] c.k = "choice" -> mods # <<>> /\ \A i \in DOMAIN mods : mods[i] \in SeqSet(c.vals)
+TemplateMatch(node, t) == ModsMatch(node.mods, t.mods) /\ AttrsMatch(node.attrs, t.preds)
 
-RECURSIVE Extend(_, _, _, _)
-Extend(L, M, f, todo) ==
-  IF todo = <<>> THEN {f}
-  ELSE UNION {Extend(L, M, (Head(todo) :> n) @@ f, Tail(todo)) : n \in {x \in NodeIds(M) : NodeFits(L, M, f, Head(todo), x)}}
+(* all induced embeddings of the link graph whose atoms satisfy their templates: candidates per link atom are selected by
+   their attributes first, then extended atom by atom; required bonds AND absent bonds among the matched atoms *)
+RECURSIVE Extend(_, _, _, _, _, _)
+Extend(L, adj, ladj, cand, f, i) ==
+  IF i > Len(L.nodes) THEN {f}
+  ELSE LET k == L.nodes[i].key IN
+       UNION {Extend(L, adj, ladj, cand, (k :> n) @@ f, i + 1) :
+                n \in {x \in cand[i] : /\ x \notin RangeOf(f)
+                                       /\ \A p \in DOMAIN f : (<<p, k>> \in ladj) = (<<f[p], x>> \in adj)}}
 
 EmptyMap == [x \in {} |-> 0]
-RawPlacements(L, M) == Extend(L, M, EmptyMap, [i \in DOMAIN L.nodes |-> L.nodes[i].key])
+RawPlacements(L, M) ==
+  LET nm == [n \in NodeIds(M) |-> NodeOf(M, n)]
+      cand == [i \in DOMAIN L.nodes |-> {n \in NodeIds(M) : TemplateMatch(nm[n], L.nodes[i])}]
+  IN IF \E i \in DOMAIN L.nodes : cand[i] = {} THEN {} ELSE Extend(L, SymPairs(M.edges), SymPairs(L.edges), cand, EmptyMap, 1)
 
 NonEdgesOK(L, M, f) ==
   \A i \in DOMAIN L.nonedges :
@@ -82,12 +115,12 @@ NonEdgesOK(L, M, f) ==
         ~\E nb \in NodeIds(M) :
             /\ MAdj(M, f[ne.from], nb)
             /\ NodeOf(M, nb).resid = NodeOf(M, f[ne.from]).resid + ne.order
-            /\ AttrsMatch(NodeOf(M, nb).attrs, ne.preds)
+            /\ TemplateMatch(NodeOf(M, nb), ne)
 PatternsOK(L, M, f) ==
   L.patterns = <<>> \/ \E i \in DOMAIN L.patterns :
-      \A j \in DOMAIN L.patterns[i] : AttrsMatch(NodeOf(M, f[L.patterns[i][j].key]).attrs, L.patterns[i][j].preds)
+      \A j \in DOMAIN L.patterns[i] : TemplateMatch(NodeOf(M, f[L.patterns[i][j].key]), L.patterns[i][j])
 OrdersOK(L, M, f) ==
-  \A a, b \in LKeys(L) :
+  \A a, b \in {k \in LKeys(L) : LNode(L, k).order.k # "none"} :
      LET oa == LNode(L, a).order  ob == LNode(L, b).order
          ra == NodeOf(M, f[a]).resid  rb == NodeOf(M, f[b]).resid
      IN IF oa = ob THEN ra = rb ELSE MatchOrderDoc(oa, ra, ob, rb) /\ MatchOrderDoc(ob, rb, oa, ra)
@@ -96,16 +129,72 @@ Fits(L, M) ==
   IF ~AttrsMatch(M.meta, L.molmeta) THEN {}
   ELSE {f \in RawPlacements(L, M) : NonEdgesOK(L, M, f) /\ PatternsOK(L, M, f) /\ OrdersOK(L, M, f)}
 
-(* geometry-derived parameters on the integer lattice: "dist(a,b)" -> squared distance of the matched atoms *)
+(* ---- Part 3: geometry-derived parameters on the integer lattice ----
+   A parameter computed from positions becomes <<"geo", kind, ...>> holding exact integer invariants (as text):
+     dist  : squared distance
+     angle : class, u.v, |u|^2, |v|^2          u = a - b, v = c - b;  cos = u.v / sqrt(|u|^2 |v|^2);  class 0 / 90 / 180 / other
+     dih   : class, s, |bc|^2, c               s = (ab x bc).cd, c = (ab x bc).(bc x cd);  angle = atan2(s sqrt(|bc|^2), c);
+                                               class 0 / 90 / -90 / 180 / other
+     dihp  : the dihedral shifted by half a turn: both s and c change sign
+   "degenerate" (coincident atoms / collinear triple: the angle is not defined), "out-of-range" (a difference beyond GeoLimit
+   lattice units: the products would leave TLC's integers) and "no-position" (an atom without coordinates, e.g. a charge dummy
+   before it is placed) carry no value. *)
+GeoLimit == 100
+DistLimit == 20000
 PosOf(M, n) == LET p == M.pos[CHOOSE i \in DOMAIN M.pos : M.pos[i][1] = n] IN <<p[2], p[3], p[4]>>
-Dist2(M, a, b) == LET p == PosOf(M, a) q == PosOf(M, b) IN (p[1]-q[1])*(p[1]-q[1]) + (p[2]-q[2])*(p[2]-q[2]) + (p[3]-q[3])*(p[3]-q[3])
+Sub(p, q) == <<p[1] - q[1], p[2] - q[2], p[3] - q[3]>>
+Dot(u, v) == u[1] * v[1] + u[2] * v[2] + u[3] * v[3]
+Cross(u, v) == <<u[2] * v[3] - u[3] * v[2], u[3] * v[1] - u[1] * v[3], u[1] * v[2] - u[2] * v[1]>>
+Abs(x) == IF x < 0 THEN -x ELSE x
+Within(u, lim) == Abs(u[1]) <= lim /\ Abs(u[2]) <= lim /\ Abs(u[3]) <= lim
+Zero3 == <<0, 0, 0>>
+Dist2(M, a, b) == LET u == Sub(PosOf(M, a), PosOf(M, b)) IN Dot(u, u)
 
-\* the interaction a link interaction becomes on placement f; geometric parameters become <<"d2", integer>>
+HasPos(M, n) == \E i \in DOMAIN M.pos : M.pos[i][1] = n
+
+DistTok(M, a, b) ==
+  IF ~(HasPos(M, a) /\ HasPos(M, b)) THEN <<"geo", "dist", "no-position">> ELSE
+  LET u == Sub(PosOf(M, a), PosOf(M, b)) IN
+  IF ~Within(u, DistLimit) THEN <<"geo", "dist", "out-of-range">> ELSE <<"geo", "dist", ToString(Dot(u, u))>>
+
+AngleTok(M, a, b, c) ==
+  IF ~(HasPos(M, a) /\ HasPos(M, b) /\ HasPos(M, c)) THEN <<"geo", "angle", "no-position">> ELSE
+  LET u == Sub(PosOf(M, a), PosOf(M, b))
+      v == Sub(PosOf(M, c), PosOf(M, b))
+  IN IF ~(Within(u, GeoLimit) /\ Within(v, GeoLimit)) THEN <<"geo", "angle", "out-of-range">>
+     ELSE IF u = Zero3 \/ v = Zero3 THEN <<"geo", "angle", "degenerate">>
+     ELSE LET d == Dot(u, v)
+              cls == IF d = 0 THEN "90" ELSE IF Cross(u, v) = Zero3 THEN (IF d > 0 THEN "0" ELSE "180") ELSE "other"
+          IN <<"geo", "angle", cls, ToString(d), ToString(Dot(u, u)), ToString(Dot(v, v))>>
+
+DihTok(M, a, b, c, d, shifted) ==
+  IF ~(HasPos(M, a) /\ HasPos(M, b) /\ HasPos(M, c) /\ HasPos(M, d)) THEN <<"geo", IF shifted THEN "dihp" ELSE "dih", "no-position">> ELSE
+  LET ab == Sub(PosOf(M, b), PosOf(M, a))
+      bc == Sub(PosOf(M, c), PosOf(M, b))
+      cd == Sub(PosOf(M, d), PosOf(M, c))
+      kind == IF shifted THEN "dihp" ELSE "dih"
+  IN IF ~(Within(ab, GeoLimit) /\ Within(bc, GeoLimit) /\ Within(cd, GeoLimit)) THEN <<"geo", kind, "out-of-range">>
+     ELSE LET n1 == Cross(ab, bc)
+              n2 == Cross(bc, cd)
+          IN IF n1 = Zero3 \/ n2 = Zero3 THEN <<"geo", kind, "degenerate">>
+             ELSE LET sgn == IF shifted THEN -1 ELSE 1
+                      s == sgn * Dot(n1, cd)
+                      co == sgn * Dot(n1, n2)
+                      cls == IF s = 0 THEN (IF co > 0 THEN "0" ELSE "180")
+                             ELSE IF co = 0 THEN (IF s > 0 THEN "90" ELSE "-90") ELSE "other"
+                  IN <<"geo", kind, cls, ToString(s), ToString(Dot(bc, bc)), ToString(co)>>
+
+ParamOf(M, f, p) ==
+  CASE p[1] = "dist"  -> DistTok(M, f[p[2]], f[p[3]])
+    [] p[1] = "angle" -> AngleTok(M, f[p[2]], f[p[3]], f[p[4]])
+    [] p[1] = "dih"   -> DihTok(M, f[p[2]], f[p[3]], f[p[4]], f[p[5]], FALSE)
+    [] p[1] = "dihp"  -> DihTok(M, f[p[2]], f[p[3]], f[p[4]], f[p[5]], TRUE)
+    [] OTHER          -> p
+
+\* the interaction a link interaction becomes on placement f
 Placed(M, f, it) ==
-  [type |-> it.type, atoms |-> [i \in DOMAIN it.atoms |-> f[it.atoms[i]]], ver |-> it.ver,
-   params |-> [i \in DOMAIN it.params |->
-                 IF it.params[i][1] = "dist" THEN <<"d2", ToString(Dist2(M, f[it.params[i][2]], f[it.params[i][3]]))>>
-                 ELSE it.params[i]]]
+  [type |-> it.type, atoms |-> [i \in DOMAIN it.atoms |-> f[it.atoms[i]]], ver |-> it.ver, meta |-> it.meta,
+   params |-> [i \in DOMAIN it.params |-> ParamOf(M, f, it.params[i])]]
 
 SetAttr(attrs, key, v) == IF Has(attrs, key) THEN [i \in DOMAIN attrs |-> IF attrs[i][1] = key THEN <<key, v>> ELSE attrs[i]]
                           ELSE Append(attrs, <<key, v>>)
@@ -123,13 +212,20 @@ RemoveFirst(s, Test(_)) ==
   IF hits = {} THEN s
   ELSE LET j == CHOOSE x \in hits : \A y \in hits : x <= y IN [i \in 1..(Len(s) - 1) |-> IF i < j THEN s[i] ELSE s[i + 1]]
 
+(* an interaction is removed by a template when it is of that type on exactly those atoms, has the template's parameters if the
+   template gives any, its atoms satisfy the per-atom conditions and its meta data satisfies the template's meta conditions *)
+RemovalMatches(M, x, r, atoms) ==
+  /\ x.type = r.type /\ x.atoms = atoms
+  /\ (r.params = <<>> \/ x.params = r.params)
+  /\ \A k \in DOMAIN r.atom_attrs \cap DOMAIN x.atoms : AttrsMatch(NodeOf(M, x.atoms[k]).attrs, r.atom_attrs[k])
+  /\ AttrsMatch(x.meta, r.meta)
+
 RECURSIVE DoRemoves(_, _, _, _)
 DoRemoves(M, L, f, i) ==
   IF i > Len(L.removes) THEN M
   ELSE LET r == L.removes[i]
            atoms == [k \in DOMAIN r.atoms |-> f[r.atoms[k]]]
-       IN DoRemoves([M EXCEPT !.inters = RemoveFirst(@, LAMBDA x : x.type = r.type /\ x.atoms = atoms /\ (r.params = <<>> \/ x.params = r.params))],
-                    L, f, i + 1)
+       IN DoRemoves([M EXCEPT !.inters = RemoveFirst(@, LAMBDA x : RemovalMatches(M, x, r, atoms))], L, f, i + 1)
 
 AddOrReplace(inters, it) ==
   LET hits == {i \in DOMAIN inters : inters[i].type = it.type /\ inters[i].atoms = it.atoms /\ inters[i].ver = it.ver} IN
